@@ -55,7 +55,8 @@ Definition index_from (len : Z) (idx : num) : option nat :=
   if (raw <? 0)%Z then
     let adjusted := (len + raw)%Z in
     if (adjusted <? 0)%Z then None else Some (Z.to_nat adjusted)
-  else Some (Z.to_nat raw).
+  else if (len <=? raw)%Z then None      (* out of range: the caller's `get(i)` is None either way; *)
+  else Some (Z.to_nat raw).              (* keeps the unary index below the length (x[1e20] runs) *)
 Definition access_val (v i : value) : outcome value :=
   match v with
   | VRec r => do k <- as_string i;
